@@ -123,6 +123,7 @@ impl Dumper {
                     None => json!({"uninit": true}),
                 }
             }
+            RigidTy::Pat(inner, _) => self.decode(alloc, off, *inner, depth + 1),
             RigidTy::Float(_) => match Self::read_uint(&alloc.bytes, off, size) {
                 Some(v) => json!({"float_bits": v.to_string()}),
                 None => json!({"uninit": true}),
@@ -608,7 +609,26 @@ impl Dumper {
                         Err(_) => break,
                     }
                 }
-                json!({"k": "coroutine", "name": def.name(), "discrs": discrs})
+                let mut v = json!({"k": "coroutine", "name": def.name(), "discrs": discrs});
+                if let Some(GenericArgKind::Type(up)) = args.0.last() {
+                    let uk = up.kind();
+                    if let Some(RigidTy::Tuple(ts)) = uk.rigid() {
+                        let ids: Vec<usize> = ts.iter().map(|t| self.ty(*t)).collect();
+                        v["upvar_tys"] = json!(ids);
+                    }
+                }
+                if let Ok(l) = t.layout() {
+                    let sh = l.shape();
+                    if let FieldsShape::Arbitrary { offsets } = &sh.fields {
+                        v["prefix_offsets"] = json!(offsets.iter().map(|o| o.bytes()).collect::<Vec<_>>());
+                    }
+                    if let VariantsShape::Multiple { variants, tag_field, .. } = &sh.variants {
+                        let vo: Vec<Vec<usize>> = variants.iter().map(|vf| vf.offsets.iter().map(|o| o.bytes()).collect()).collect();
+                        v["variant_offsets"] = json!(vo);
+                        v["tag_field"] = json!(tag_field);
+                    }
+                }
+                v
             }
             RigidTy::Dynamic(preds, _) => {
                 let names: Vec<String> = preds.iter().map(|p| format!("{:?}", p.value)).collect();
@@ -616,6 +636,7 @@ impl Dumper {
                 json!({"k": "dyn", "trait": tp, "preds": names.len()})
             }
             RigidTy::Never => json!({"k": "never"}),
+            RigidTy::Pat(inner, _) => json!({"k": "pat", "of": self.ty(*inner)}),
             RigidTy::Tuple(ts) => {
                 let tys: Vec<usize> = ts.iter().map(|t| self.ty(*t)).collect();
                 json!({"k": "tuple", "tys": tys})
@@ -647,13 +668,21 @@ impl Dumper {
                 entry["arg_tys"] = json!(at);
                 entry["ret_ty"] = json!(self.ty(abi.ret.ty));
             }
+            {
+                let ik = i.ty().kind();
+                if let Some(sig) = catch_unwind(AssertUnwindSafe(|| ik.fn_sig())).ok().flatten() {
+                    if matches!(sig.skip_binder().abi, Abi::RustCall) {
+                        entry["rust_call"] = json!(true);
+                    }
+                }
+            }
             let targs: Vec<Value> = i.args().0.iter().filter_map(|a| a.ty().map(|t| json!(self.ty(*t)))).collect();
             entry["targs"] = json!(targs);
             if stopped {
                 entry["stopped"] = json!(true);
             } else if matches!(i.kind, InstanceKind::Virtual { .. }) {
                 // no body: dispatched at run time through the vtable table
-            } else if i.has_body() {
+            } else if i.has_body() || matches!(i.kind, InstanceKind::Shim) {
                 let body = catch_unwind(AssertUnwindSafe(|| i.body()));
                 match body {
                     Ok(Some(b)) => entry["body"] = self.body(&b),
